@@ -252,7 +252,7 @@ func (dg *Graph) FailNodes(results []*Result, id CtorID) {
 	if c, ok := dg.ctorMap[id]; ok {
 		if isRootCause {
 			c.ErrorType = rootCause
-		} else {
+		} else if c.ErrorType != rootCause {
 			c.ErrorType = transitiveFailure
 		}
 	}
@@ -288,8 +288,14 @@ func (dg *Graph) FailGroupNodes(name string, t reflect.Type, id CtorID) {
 			group.ErrorType = rootCause
 			c.ErrorType = rootCause
 		} else {
-			group.ErrorType = transitiveFailure
-			c.ErrorType = transitiveFailure
+			// A constructor that is built re-entrantly shows up twice in the
+			// error chain; the root cause must not be demoted.
+			if group.ErrorType != rootCause {
+				group.ErrorType = transitiveFailure
+			}
+			if c.ErrorType != rootCause {
+				c.ErrorType = transitiveFailure
+			}
 		}
 	}
 }
